@@ -23,6 +23,22 @@ CHECKS = {
             'conflicts for every blank-line count option and thousands of random/mutated config texts must not crash or hang.',
             'Domain (options, ranges, documentation groups) is read from the binary under test; random text is sampled; hangs '
             'are decided by a 20 s CPU limit.', 'DESIGN.md §3 C16'),
+    'C09': ('exploration', 'exhaustive enumeration of all Unicode scalars x 4 encodings (round-trip identity) + metamorphic '
+            'transcoding commutation + reference model of the BOM options + invalid-sequence grammar',
+            'All 1,112,064 scalar values are carried through comments, literals and identifiers in UTF-8, UTF-8+BOM, UTF-16LE and '
+            'UTF-16BE in both tiers (exhaustive); f(T_E(x)) == T_E(f(x)) on corpus files with injected non-ASCII; the full '
+            'encoding x utf8_bom x utf8_byte x utf8_force matrix against the documented model; a grammar of invalid sequences must '
+            'be refused or passed through byte-wise.',
+            'Carrier programs are fixed (one declaration style); transcoding commutation is sampled over corpus files and seeded '
+            'whitespace configs; C0 controls other than TAB are outside the carrier domain.', 'DESIGN.md §3 C09'),
+    'C12': ('exploration', 'generated boundary perturbations of formatted files x modes; differential oracle against an ordinary '
+            'reference run + directory snapshot invariant',
+            'For corpus files, their formatted versions and same-size / last-byte / final-newline perturbations, in four input '
+            'encodings, --check exit status and PASS/FAIL lines must agree with an independent reference run f(z)==z and leave the '
+            'directory snapshot (names, sizes, mtime_ns, sha256) untouched; --if-changed must write its target iff f(z)!=z and then '
+            'exactly f(z), for -o, stdout, suffix, prefix, --replace, --no-backup and -o onto the source.',
+            'The reference f(z) comes from the same binary in a plain -f run, so a defect that changes both paths identically is '
+            'invisible here (C10 covers mode equivalence).', 'DESIGN.md §3 C12'),
 }
 
 ALL = ['C%02d' % i for i in range(1, 21)]
